@@ -24,6 +24,7 @@ Flow  == INSTANCE MC_Flow
 Opt   == INSTANCE MC_Opt
 Scope == INSTANCE MC_Scope
 Alias == INSTANCE MC_Alias
+Hist  == INSTANCE MC_History
 
 Host == <<<<"t", <<"log">>>>>>
 SemFuel == 80
@@ -40,17 +41,20 @@ Runs(prog, cc, oc, objs, i, g1, g2, g3) ==
            same12 == Agree(r1, r2)
            same23 == Agree(r2, r3)
            \* once one side is unconstrained the variables may differ: the later runs are not compared
-           go == r1.st = "ok" /\ r2.st = "ok" /\ r3.st = "ok" /\ same12 /\ same23
+           \* (a run that fails leaves the variables it had assigned so far - those are compared, and the next run starts from them)
+           go == r1.st \in {"ok", "err"} /\ r2.st \in {"ok", "err"} /\ r3.st \in {"ok", "err"} /\ same12 /\ same23
        IN <<[obj |-> objs[i], g |-> g2, sem |-> r1.out, vm |-> r2.out, opt |-> r3.out, st |-> r2.st,
              refines |-> same12, preserved |-> same23, ips |-> r2.ips, oips |-> r3.ips]>>
           \o (IF go THEN Runs(prog, cc, oc, objs, i + 1, r1.g, r2.g, r3.g) ELSE <<>>)
 
-MkRow(fam, prog, objs) ==
+\* g0: the variables the evaluator holds before the first run
+MkRowG(fam, prog, objs, g0) ==
   LET cc == Compile(prog) IN
-  IF ~cc.ok THEN [k |-> "refine", fam |-> fam, prog |-> prog, ok |-> FALSE, runs |-> <<>>, done |-> TRUE]
+  IF ~cc.ok THEN [k |-> "refine", fam |-> fam, prog |-> prog, ok |-> FALSE, vars |-> g0, runs |-> <<>>, done |-> TRUE]
   ELSE LET oc == Optimize(cc) IN
-       [k |-> "refine", fam |-> fam, prog |-> prog, ok |-> TRUE,
-        runs |-> Runs(prog, cc, oc, objs, 1, <<>>, <<>>, <<>>), done |-> TRUE]
+       [k |-> "refine", fam |-> fam, prog |-> prog, ok |-> TRUE, vars |-> g0,
+        runs |-> Runs(prog, cc, oc, objs, 1, g0, g0, g0), done |-> TRUE]
+MkRow(fam, prog, objs) == MkRowG(fam, prog, objs, <<>>)
 
 NK == 37
 Twice == <<<<>>, <<>>>>
@@ -60,6 +64,7 @@ Init ==
   \/ \E t \in 1..18 : row = [k |-> "s0", t |-> t, done |-> FALSE]
   \/ \E sh \in 1..14 : row = [k |-> "a0", sh |-> sh, done |-> FALSE]
   \/ \E k1 \in 1..NK : row = [k |-> "o0", k1 |-> k1, done |-> FALSE]
+  \/ \E sc \in 1..2, m1 \in 0..9 : row = [k |-> "h0", sc |-> sc, m1 |-> m1, done |-> FALSE]
 
 Next ==
   /\ ~row.done
@@ -81,6 +86,13 @@ Next ==
              /\ (Tier = "thorough" \/ (row.sh + s + m) % 3 = 0)
              /\ row' = MkRow("alias", Alias!Shape(row.sh, Alias!Sources[s], Alias!Muts[m]),
                              IF row.sh = 7 THEN <<<<<<"F1", Alias!Sources[s]>>>>, <<<<"F1", Alias!Sources[s]>>>>>> ELSE Twice)
+     \/ \* the fault scripts of MC_History: run-time errors inside functions and loops, early returns (the
+        \* mode "a run that never ends" is left out: both sides only run out of fuel)
+        /\ row.k = "h0"
+        /\ \E m2 \in 0..9, m3 \in 0..9 :
+             /\ (Tier = "thorough" \/ (row.m1 + 3 * m2 + 5 * m3) % 7 = 0)
+             /\ row' = MkRowG("history", IF row.sc = 1 THEN Hist!Script1 ELSE Hist!Script2,
+                              <<<<<<"M", I(row.m1)>>>>, <<<<"M", I(m2)>>>>, <<<<"M", I(m3)>>>>>>, Hist!G0)
      \/ /\ row.k = "o0"
         /\ \E m1 \in 0..Opt!NC, k2 \in 1..NK, m2 \in 0..Opt!NC, sh \in {"nest2", "seq2", "first"} :
              /\ (m1 > 0 => Opt!UsesC(row.k1)) /\ (m2 > 0 => Opt!UsesC(k2)) /\ (m1 > 0 \/ m2 > 0)
